@@ -9,7 +9,7 @@ import (
 	"time"
 
 	"verif/mc/fw"
-	_ "verif/mc/harness"
+	"verif/mc/harness"
 )
 
 func main() {
@@ -48,6 +48,10 @@ func main() {
 		r := c.Run(os.Args[4], env)
 		b, _ := json.MarshalIndent(r, "", " ")
 		fmt.Fprintln(diag, string(b))
+	case "reprun":
+		diag := fw.Silence()
+		n, _ := strconv.Atoi(os.Args[3])
+		fmt.Fprintln(diag, harness.DebugRep(os.Args[2], n))
 	case "diff":
 		debugDiff(os.Args[2])
 	case "replay":
